@@ -234,6 +234,11 @@ func lexMessageHeader(l *lexer) stateFn {
 			l.emit(tokenTypeLeftAngleBracket)
 			return lexMessageText
 		default:
+			if unicode.IsSpace(r) {
+				// any other white space separates header elements, too
+				l.ignore()
+				continue
+			}
 			for {
 				r := l.next()
 				if r == eof || unicode.IsSpace(r) || strings.HasPrefix(l.input[l.pos-1:], "//") {
